@@ -177,3 +177,40 @@ def check(chk):
     # a trashed connection whose last live request ends by a client timeout is re-examined because _on_timeout always returns it to its pool
     chk.rule('C13.recheck', 'every way a request leaves a connection (answer, timeout) reaches the pool\'s return_connection, which closes a drained trashed connection')
     chk.borrow('C09', {'C09.orphan': 'C13.recheck'}, 'the pool is not told about the orphaned stream, so a trashed connection that has only orphans left is never closed')
+
+    # the heartbeat's OPTIONS request is a stream too: when its answer arrives the owning pool re-examines the connection
+    chk.rule('C13.heartbeat', 'ConnectionHeartbeat.run: after giving the heartbeat\'s stream back (in_flight -= 1) a pooled connection is handed to owner.return_connection on every path')
+    cm = chk.repo.mod('cassandra/connection.py')
+    run = cm.func('ConnectionHeartbeat.run')
+    g = CFG(run)
+    decs = [n for n in g.stmt_nodes() if n.kind == 'stmt' and isinstance(n.ast, ast.AugAssign) and isinstance(n.ast.op, ast.Sub) and src(n.ast.target).endswith('.in_flight')]
+    if len(decs) != 1:
+        raise AnalysisError('ConnectionHeartbeat.run: the heartbeat stream release (in_flight -= 1) was not found (%d)' % len(decs))
+    cname = src(decs[0].ast.target).rsplit('.', 1)[0]
+
+    def is_return(n):
+        return n.kind == 'stmt' and any(isinstance(c, ast.Call) and isinstance(c.func, ast.Attribute) and c.func.attr == 'return_connection' and c.args and src(c.args[0]) in (cname, 'f.connection')
+                                        for c in ast.walk(n.ast))
+    seen, work, escapes = set(), [(x, lab) for x, lab in decs[0].succ], []
+    while work:
+        n, lab = work.pop()
+        if lab and lab[0] == 'exc':
+            continue    # the failure arm defuncts and returns the connection itself (C10 / C12)
+        if n.id in seen:
+            continue
+        seen.add(n.id)
+        if is_return(n):
+            continue
+        if n.kind in ('for_iter', 'exit'):
+            escapes.append(n)
+            continue
+        for x, l2 in n.succ:
+            if n.kind == 'test' and l2 and src(n.ast) in ('%s.is_control_connection' % cname, 'not %s.is_control_connection' % cname):
+                pos = not src(n.ast).startswith('not ')
+                if (l2[0] == 'T') == pos:
+                    continue        # the control connection has no pool and no trash
+            work.append((x, l2))
+    chk.judge(not escapes, 'C13.heartbeat', decs[0].ast, 'heartbeat answered: in_flight -= 1, then owner.return_connection(%s, ...) for a pooled connection' % cname,
+              'the heartbeat gives its stream back by decrementing in_flight directly and the pool is never asked to look at the connection again: a connection that was replaced '
+              'while the heartbeat was out stays in _trash, open, with only orphaned streams left, until the pool is shut down')
+
